@@ -91,8 +91,8 @@ class Monitor:
         elif isinstance(st, Case):
             self.expr(st.test, True, "exact")
             for k, v in st.cases.items():
-                if isinstance(k, Constant) and k.value < 0:
-                    self._add(st.test, lambda v: False, "negative Case key")
+                if isinstance(k, Constant) and k.value < 0 and not value_bits_sign(st.test)[1]:
+                    self._add(st.test, lambda v: False, "negative Case key with an unsigned test")
                 self.stmt(v)
         elif isinstance(st, (list, tuple)):
             for x in st:
